@@ -195,6 +195,11 @@ func registerVerifrt(reg func(f intrinsicFn, names ...string)) {
 		return nil
 	}, P+"LimitWrites")
 	reg(func(e *Exec, fn *ssa.Function, args []Value) Value {
+		// WantsWrite(fd): is the descriptor registered with the poller for writable events (EPOLLOUT)?
+		fd := e.fdOf(args[0])
+		return e.tf.Bool(fd != nil && !fd.closed && fd.registered && fd.events&0x4 != 0)
+	}, P+"WantsWrite")
+	reg(func(e *Exec, fn *ssa.Function, args []Value) Value {
 		e.notes = append(e.notes, e.strArg(args[0]))
 		return nil
 	}, P+"Note")
